@@ -1,11 +1,20 @@
 """C08 - location table reflects the newest valid information about each station.
 
-Decides: the strict-newer guard on every position-vector store; the wrap-around TST order as an exact truth table
-over the cells of d = a - b; the neighbour-flag discipline per packet type; that the own address never reaches a
-table update (DAD first); that the expiry predicate is taken on the entry's position-vector timestamp, against a
-clock of the same resolution, and cannot mistake a timestamp slightly ahead of the clock for an ancient one; that
-readers apply the expiry predicate.
-Does not decide histories with clock advances as values, nor PDR arithmetic.
+Decides: the strict-newer guard on every position-vector store - a never-filled entry takes the first PV, a filled one
+every strictly newer PV (newer-only) - and that every table update reaches update_position_vector with the packet's
+source PV (pv-update); the wrap-around TST order as an exact truth table over the cells of d = a - b: thresholds 2^31,
+> as serial-number order, antisymmetric, == only at d = 0, >=, <, <= derived from them (tst-order); the neighbour-flag
+discipline (neighbour: set True only from beacon / SHB processing and certainly by it; set False only for an entry
+created for this packet, where "new" is decided by the expiry-aware lookup get_entry(source address) is None - a raw
+table access, which also finds expired entries, fails); that the own address never reaches a table update: DAD on the
+source address first, DAD raising exactly for the own address (no-self); expiry: refresh_table keeps exactly the
+entries satisfying the lifetime predicate; the predicate ages an entry by its position-vector timestamp, keeps it
+while age <= itsGnLifetimeLocTE, keeps an entry stamped ahead of the clock instead of taking the wrapped difference,
+is fed a clock of millisecond resolution (or is harmless under the ahead alternative), and TST.__sub__ is the
+difference modulo 2^32 on every cell (expiry); that get_entry / get_neighbours hand out only entries on which the
+predicate held - decided on the must-facts or, where nested ifs separate the cases, path by path: on every path to
+the return the entry was found None or the predicate was true on it (purge-on-read).
+Does not decide entry presence over histories with clock advances as values, nor PDR arithmetic.
 """
 from __future__ import annotations
 
